@@ -42,9 +42,12 @@ CONFIGS = {
     "other_dimension": [("m", 0, 0, 0), ("s", 0, 0, 0)],
     "array_uncertain": [("m", 0, 1, 1), ("c:m", 0, 0, 1)],
 }
-# named deviations of QuantityHeap.tla that have been repaired in /repo by a fix: commit (none so far).  When a proposed
-# fix is applied, list its deviations here so that the machine spec follows the repaired algorithm (DESIGN 4.5).
-FIXED_DEVIATIONS = [x for x in os.environ.get("VERIF_C07_FIXED", "").split(",") if x]      # (env: trial of a patch only)
+# named deviations of QuantityHeap.tla that have been repaired in /repo: those whose findings in known_findings are all
+# `fixed` (none so far); the machine spec then follows the repaired algorithm (DESIGN 4.5).
+ALL_DEVIATIONS = ["rhs_converted_in_place", "log_operands_to_linear", "arg_converted_in_place", "operand_to_rad", "operand_to_none",
+                  "ctor_shares_magnitude", "ctor_mutates_magnitude"]
+FIXED_DEVIATIONS = sorted(set(A.repaired_deviations(PID, ALL_DEVIATIONS)) |
+                          {x for x in os.environ.get("VERIF_C07_FIXED", "").split(",") if x})      # (env: trial of a patch only)
 REP_PURE = ["add", "mul", "eq", "neg", "np.sqrt", "np.abs", "np.linspace", "np.sin", "value", "ctor_dict", "getitem", "radd"]
 REP_PURE_QUICK = ["add", "mul", "eq", "neg", "np.abs", "np.linspace", "ctor_dict"]
 QUICK_REPAIRED = ["other_unit", "dB_same", "decimal_right", "array_uncertain", "angles", "dimensionless"]
